@@ -62,9 +62,13 @@ PROPS = {
              "derived state; validate_idem; validate_no_trap",
              [], "Lean 4 theorems over all raw boards (uses C16 for the king-attack gate, kernel-decided facts on extracted masks/thresholds)",
              "§6 C11"),
-    "C12": P("exploration", "none yet", ["P_total for the eight parsers"],
-             "byte-level Impl model of all parsers with explicit trap results, differential incl. exhaustive short strings and multi-byte UTF-8; panics observed under catch_unwind",
-             "§6 C12", 1.0),
+    "C12": P("proof", "no modelled parser reaches a panic site, for ALL byte strings: fen_total, fen_board_total, uci_total, san_total, "
+             "the four base-type parsers; uci_in_position_total and san_in_position_total in every validated board (all three UCI readers, "
+             "SAN resolution incl. candidate search); reparse for coord/cell/colour/rights/UCI",
+             ["reparse clause for SAN and FEN values is differential-only (rt= flag on the implementation)",
+              "push_uci_list totality beyond the first token needs 'a legal move keeps both kings' (differential-only)"],
+             "Lean 4 theorems over byte-level parser models with explicit trap results (loop invariant for parse_cells, case analysis "
+             "for the SAN/UCI grammars, king existence from the validation theorems)", "§6 C12", 1.0),
     "C13": P("exploration", "none yet", ["ChainInv preserved"],
              "differential: random push/pop/outcome scripts vs Spec replay (start, accepted moves, outcome)", "§6 C13"),
     "C14": P("exploration", "none yet", ["repeat_count_eq", "chain_outcome_eq"],
@@ -84,8 +88,13 @@ PROPS = {
              "differential: walker op strings, uci list rebuild, 18 renderings vs Spec.render / replay", "§6 C17"),
     "C18": P("exploration", "none yet", ["legal_mirrorV on Spec"],
              "metamorphic on the implementation (A = B after mirroring) + model", "§6 C18"),
-    "C19": P("exploration", "none yet", ["sites_in_range", "semilegal_count_le_256 (unproved extremal clause)"],
-             "debug-build run (std unsafe-precondition checks, arrayvec debug_assert) on max-mobility positions; count via safe Vec sink vs Spec",
+    "C19": P("proof", "PARTIAL: rookIndex_lt / bishopIndex_lt (the magic lookup index is inside the table for every square and all 2^64 "
+             "occupancies, from x>>>s < 2^(64-s) and a kernel check of the 128 extracted (offset, shift) pairs); every other table is "
+             "indexed by a bounded type; the unchecked square additions of the validator / make-move stay on the board (per-rank facts)",
+             ["semilegal_count_le_256 (SemilegalCountBound) is stated but NOT proved: extremal-combinatorics clause, supported only by "
+              "hill-climbing search through the safe Vec sink and debug-build runs (DESIGN §9)",
+              "the pawn generators' dst-delta sites are differential-only"],
+             "Lean 4 theorems for index ranges; debug-build differential (std unsafe-precondition checks, arrayvec debug_assert) for the rest",
              "§6 C19"),
     "C20": P("proof", "index/text round trips for every value of every finite type; parsers accept exactly the documented spellings (all byte "
              "strings, for coord/cell/colour); rights set algebra; bitboard operations = set operations; ascending iteration (as a filter); "
